@@ -424,6 +424,71 @@ def run(p, report, tier):
                 "they are summed (shared with C17 R17.2)", floor=4)
     from . import c17 as _c17
     _c17.check_vote_weights(p, c01.Report_proxy(report, {"R17.2": "R11.9"}))
+    # ---------------- round 6
+    report.rule("R11.12", "the model always belongs to the data the classifier currently holds: every return of fit / partial_fit "
+                "of the wrapper classifiers is, or is dominated by, the call of self._fit (a shortcut that returns after the "
+                "window was moved but before the refit leaves the model of samples that were already evicted: no labels in the "
+                "window, yet non-uniform probabilities)", floor=4)
+    from ..astutil import FuncTree as _FT, dominates as _dom
+    for ci in classes:
+        if not ci.file.endswith("classifier/_wrapper.py") or "_fit" not in ci.methods:
+            continue
+        for mn in ("fit", "partial_fit"):
+            f = ci.methods.get(mn)
+            if f is None:
+                continue
+            tree = _FT(f.node)
+            fits = [tree.stmt_of(c) for c in ast.walk(f.node) if isinstance(c, ast.Call) and isinstance(c.func, ast.Attribute)
+                    and c.func.attr == "_fit" and isinstance(c.func.value, ast.Name) and c.func.value.id == "self"]
+            for r in ast.walk(f.node):
+                if not isinstance(r, ast.Return):
+                    continue
+                ok = any(st is r or _dom(tree, st, r) for st in fits)
+                report.add("R11.12", f.qual, f"`{norm_stmt(r, 50)}` comes after the refit", f"{f.file}:{r.lineno}", ok,
+                           detail="self._fit(...) on every path to this return" if ok else
+                           "this return is reached without self._fit: the training window / data was (or may have been) changed, "
+                           "the wrapped model was not")
+    report.rule("R11.13", "decisions minimise the expected cost under the CONFIGURED cost matrix: check_cost_matrix returns the "
+                "matrix it validated - every binding of the returned array is a validation / conversion call (check_array, "
+                "np.asarray ...), never arithmetic on it", floor=1)
+    ccm = None
+    for f in p.all_functions():
+        if f.name == "check_cost_matrix" and f.file.endswith("utils/_validation.py"):
+            ccm = f
+    if ccm is None:
+        raise AnalysisError("check_cost_matrix vanished")
+    rn = {r.value.id for r in ast.walk(ccm.node) if isinstance(r, ast.Return) and isinstance(r.value, ast.Name)}
+    for nm in sorted(rn):
+        binds = [a for a in ast.walk(ccm.node) if isinstance(a, (ast.Assign, ast.AugAssign))
+                 and any((isinstance(t, ast.Name) and t.id == nm) or (isinstance(t, ast.Subscript) and isinstance(t.value, ast.Name) and t.value.id == nm)
+                         for t in (a.targets if isinstance(a, ast.Assign) else [a.target]))]
+        bad = [a for a in binds if isinstance(a, ast.AugAssign) or isinstance(a.targets[0], ast.Subscript) or not (
+            isinstance(a.value, ast.Call) and (c01.callname(a.value) or "") in ("check_array", "asarray", "array", "column_or_1d", "copy", "astype"))]
+        report.add("R11.13", ccm.qual, f"`{nm}` is returned as validated", f"{ccm.file}:{(bad[0] if bad else ccm.node).lineno}", not bad,
+                   detail=f"{len(binds)} binding(s): conversions only" if not bad else
+                   f"`{norm_stmt(bad[0], 60)}` changes the values of the cost matrix inside its validator: every classifier then "
+                   f"decides under another matrix than the one the user configured")
+    report.rule("R11.14", "what SlidingWindowClassifier forwards to its wrapped classifier through __getattr__ it does not keep "
+                "itself: no method of it stores one of the label attributes the wrapped classifier's validation defines "
+                "(classes_, _le, cost_matrix_) - a stored copy shadows the forwarding, and classes_ then disagrees with the "
+                "columns of predict_proba", floor=1)
+    swc = p.get_class("SlidingWindowClassifier")
+    base_vd = p.get_method("SkactivemlClassifier", "_validate_data")
+    if swc is None or base_vd is None or "__getattr__" not in swc.methods:
+        raise AnalysisError("SlidingWindowClassifier / its __getattr__ forwarding vanished")
+    def _stored(fn):
+        return {t.attr for a in ast.walk(fn.node) if isinstance(a, ast.Assign) for t in a.targets
+                if isinstance(t, ast.Attribute) and isinstance(t.value, ast.Name) and t.value.id == "self"}
+    label_attrs = {a for a in _stored(base_vd) if a in ("classes_", "_le", "cost_matrix_", "class_prior_")}
+    hit = []
+    for mn, f in sorted(swc.methods.items()):
+        for a in sorted(_stored(f) & label_attrs):
+            hit.append((f, a))
+    report.add("R11.14", swc.name, "forwarded label attributes are not stored on the wrapper",
+               f"{swc.file}:{(hit[0][0].node.lineno if hit else 1)}", not hit,
+               detail=f"forwarded: {sorted(label_attrs)}" if not hit else
+               f"{hit[0][0].qual} stores self.{hit[0][1]}: attribute lookup finds it before __getattr__ forwards to the wrapped "
+               f"classifier, whose own value (the classes it was actually fitted with) is what predict_proba's columns follow")
     report.assumptions += ["finiteness, non-negativity and row sums equal to one as numbers are not decided",
                            "the wrapped estimator's predict returns class labels and its predict_proba is row-normalised"]
 
